@@ -454,6 +454,16 @@ def merge_family(ctx, exe_r, exe_d=None):
         gs.append(gg.from_text(src))
     for src in gg.gc_corpus()[:ctx.n(40, 120)] + gg.gc_chain_corpus()[:ctx.n(15, 60)]:
         gs.append(gg.from_text(src))
+    # random (mostly conflicted, often unproductive) small grammars: with resolved conflicts Pager's merging is
+    # order-sensitive, so any dependence of an iteration order on the key width shows as different tables
+    # (first: the grammar that had 13 states with u8 and 12 with u16/u32 before /repo ba4835d)
+    gs.append(txt("S: S S S A; A: A 'a' S | B 'b' 'a'; B: 'a' A;"))
+    tables_only = set()
+    for i in range(ctx.n(400, 6000)):
+        g = gg.random_grammar(rng)
+        if g is not None:
+            gs.append(g)
+            tables_only.add(g.key())        # conflict-resolved tables may loop on parsing (C07's known class): tables only
     n = ctx.n(18, 120)
     for i in range(n):
         gs.append(gg.not_lalr_template(rng))
@@ -475,7 +485,7 @@ def merge_family(ctx, exe_r, exe_d=None):
     gs = uniq
     lines, meta, ins_of = [], [], []
     for g in gs:
-        inputs = gg.inputs_for(rng, g, ctx.n(10, 20), maxlen=8)
+        inputs = [[]] if g.key() in tables_only else gg.inputs_for(rng, g, ctx.n(10, 20), maxlen=8)
         ins_of.append(inputs)
         ins = " ; ".join(" ".join(x) for x in inputs)
         for w in WIDTHS:
@@ -494,6 +504,16 @@ def merge_family(ctx, exe_r, exe_d=None):
         ctx.count("merge_family_grammars")
         if len(set(ths.values())) > 1:
             ctx.count("merge_family_tables_not_isomorphic")
+            if all(o[0] == "OK" for o in obs.values()):
+                # "the same numbering, table contents … in all widths that accept it": the (canonically renumbered)
+                # action/goto tables differ between widths
+                nbad += 1
+                ctx.violation({"grammar": g.render(), "table_digest_per_width": {str(w): ths[w] for w in WIDTHS},
+                               "observations_per_width": {str(w): str(obs[w])[:300] for w in WIDTHS},
+                               "why": "the state table of this grammar depends on the index storage width (different digests of "
+                                      "the canonically renumbered action/goto tables)",
+                               "replay_cmd": "for w in 8 16 32; do echo \"N $w %s\" | .work/target/release/c20; done" % hx(g.render())})
+                continue
         accepting = [w for w in WIDTHS if obs[w][0] == "OK"]
         if ref[0] != "OK" and len(set(tuple(map(str, obs[w][:1])) for w in WIDTHS)) == 1 and not accepting:
             # no width produced a result (the same outcome class everywhere, e.g. a parse that does not return on a
